@@ -1536,7 +1536,7 @@ int FMesher::DoPeriodicBCTriangulation(string PathName)
             k = (int) ceil(problem->arclist[s0]->ArcLength/problem->arclist[s0]->MaxSideLength);
             segm.BoundaryMarkerName = problem->arclist[s0]->BoundaryMarkerName;
             if (problem->filetype != FileType::MagneticsFile)
-                segm.InConductorName=problem->arclist[i]->InConductorName; // not relevant for magnetics
+                segm.InConductorName=problem->arclist[s0]->InConductorName; // not relevant for magnetics
             problem->getCircle(*problem->arclist[s0],c0,r0);
             problem->getCircle(*problem->arclist[s1],c1,r1);
 
